@@ -379,8 +379,10 @@ class EvolvableMultiInput(EvolvableModule):
 
         # Optionally, use an EvolvableMLP for all concatenated vector inputs
         if self.vector_space_mlp:
+            # The MLP is registered under its (optionally user-defined) name
+            mlp_name = self.mlp_init_dict.get("name") or "vector_mlp"
             init_dict = copy.deepcopy(
-                self.get_inner_init_dict("vector_mlp", default="mlp")
+                self.get_inner_init_dict(mlp_name, default="mlp")
             )
             self.mlp_name = init_dict.pop("name", "vector_mlp")
             vector_mlp = EvolvableMLP(
